@@ -1,4 +1,5 @@
 import BddProofs.SubstCor
+import BddProofs.Total2
 import BddProofs.Init
 /-! # C08 — cofactor and substitution operations fix variables and nothing else
 
@@ -62,6 +63,27 @@ theorem C08_top_cofactors {s : St} (hg : Good s) {r φ m r0 r1}
     (hr : Valid s.nodes r φ) (hs : SuppGe φ m) (h : topCofactors s r m = .ok (r0, r1)) :
     Valid s.nodes r0 (cof φ m false) ∧ Valid s.nodes r1 (cof φ m true) := topCofactors_spec hg hr hs h
 
+/-- it terminates without panicking, storage capacity permitting: with enough fuel it returns or stops
+with "Storage is full"; it never hits an `assert!` and never runs out of fuel -/
+theorem C08_substitute_terminates {V fuel v : Nat} {b : Bool} {s : St} {f : Ref} {φ : Fn} (hg : Good s) (hV : VarsLe s V)
+    (vf : Valid s.nodes f φ) (hv : v ≠ 0) (hfuel : lv s V f < fuel) :
+    ((∃ s' r, substitute fuel s f v b [] = .ok (s', r)) ∨ (∃ s', substitute fuel s f v b [] = .error (.storageFull, s'))) ∧
+    (∀ e s', substitute fuel s f v b [] = .error (e, s') → e = .storageFull) :=
+  let ⟨a, _, c⟩ := substitute_total' (b := b) hg hV vf hv hfuel
+  ⟨a, c⟩
+theorem C08_substitute_multi_terminates {V fuel : Nat} {vals : Vals} {s : St} {f : Ref} {φ : Fn} (hg : Good s) (hV : VarsLe s V)
+    (vf : Valid s.nodes f φ) (hfuel : lv s V f < fuel) :
+    ((∃ s' r, substMulti fuel s f vals [] = .ok (s', r)) ∨ (∃ s', substMulti fuel s f vals [] = .error (.storageFull, s'))) ∧
+    (∀ e s', substMulti fuel s f vals [] = .error (e, s') → e = .storageFull) :=
+  let ⟨a, _, c⟩ := substMulti_total' (vals := vals) hg hV vf hfuel
+  ⟨a, c⟩
+theorem C08_cofactor_cube_terminates {V fuel : Nat} {cube : Vals} {s : St} {f : Ref} {φ : Fn} (hg : Good s) (hV : VarsLe s V)
+    (vf : Valid s.nodes f φ) (hasc : cube.Pairwise (fun a b => a.1 < b.1)) (hfuel : lv s V f + cube.length < fuel) :
+    ((∃ s' r, cofCube fuel s f cube [] = .ok (s', r)) ∨ (∃ s', cofCube fuel s f cube [] = .error (.storageFull, s'))) ∧
+    (∀ e s', cofCube fuel s f cube [] = .error (e, s') → e = .storageFull) :=
+  let ⟨a, _, c⟩ := cofCube_total' hg hV vf hasc hfuel
+  ⟨a, c⟩
+
 /-- non-vacuity -/
 example : Good s4 ∧ Valid s4.nodes Ref.one (fun _ => true) ∧
     substitute 3 s4 Ref.one 2 true [] = .ok (s4, Ref.one, []) :=
@@ -77,3 +99,6 @@ end P
 #print axioms P.C08_multi_cube_agree
 #print axioms P.C08_accessors
 #print axioms P.C08_top_cofactors
+#print axioms P.C08_substitute_terminates
+#print axioms P.C08_substitute_multi_terminates
+#print axioms P.C08_cofactor_cube_terminates
